@@ -245,7 +245,7 @@ Proof.
         try (apply rmap_ok in Ht; destruct Ht as [a [Ha ->]]; try exact I).
       * (* EXT-X-KEY *)
         cbn [key_item_stripped]. unfold parse_xkey in Ha. apply bind_ok in Ha. destruct Ha as [rest0 [_ Ha]].
-        destruct (str_eqb (trim rest0) s_METHOD_NONE); [inversion Ha; exact I|].
+        destruct (is_method_none (attr_pairs rest0)); [inversion Ha; exact I|].
         apply rmap_ok in Ha. destruct Ha as [k [Hk ->]]. cbn [stripped]. apply (parsed_key_stripped _ _ Hk).
       * destruct (is_ok (tag x pfx_VariantStream_EXTXIFRAME)); [|discriminate].
         apply rmap_ok in Ht. destruct Ht as [a [Ha ->]]. exact I.
